@@ -2119,11 +2119,13 @@ func (s *swamp) CreateTreasure(key string) treasure.Treasure {
 	t.ReleaseTreasureGuard(guardID)
 
 	s.creatingTreasures.Store(key, t)
+	verifhook.Point("swamp.createTreasure.created")
 
 	return t
 }
 
 func (s *swamp) SaveFunction(t treasure.Treasure, guardID guard.ID) treasure.TreasureStatus {
+	verifhook.Point("swamp.save.enter")
 
 	// set the last interaction time to the current time
 	atomic.StoreInt64(&s.lastInteractionTime, time.Now().UnixNano())
@@ -2161,6 +2163,7 @@ func (s *swamp) SaveFunction(t treasure.Treasure, guardID guard.ID) treasure.Tre
 
 		// add treasure to the beaconKey index
 		s.beaconKey.Add(t)
+		verifhook.Point("swamp.save.published")
 
 		// the treasure is now visible via beaconKey, so it no longer needs the in-flight tracker
 		s.creatingTreasures.Delete(t.GetKey())
@@ -2179,6 +2182,7 @@ func (s *swamp) SaveFunction(t treasure.Treasure, guardID guard.ID) treasure.Tre
 		inMem := s.inMemorySwamp
 		s.mu.RUnlock()
 		if wi == 0 && inMem == 0 {
+			verifhook.Point("swamp.save.beforeEarlyRelease")
 			// treasure lock feloldása hogy a kírás azonnal történjen
 			t.ReleaseTreasureGuard(guardID)
 			// write the treasure to the chroniclerInterface
@@ -2267,6 +2271,7 @@ func (s *swamp) SaveFunction(t treasure.Treasure, guardID guard.ID) treasure.Tre
 		inMem := s.inMemorySwamp
 		s.mu.RUnlock()
 		if wi == 0 && inMem == 0 {
+			verifhook.Point("swamp.save.beforeEarlyRelease")
 			// treasure lock feloldása hogy a kírás azonnal történjen
 			t.ReleaseTreasureGuard(guardID)
 			// write the treasure to the chroniclerInterface
@@ -2968,6 +2973,7 @@ func (s *swamp) deleteHandler(key string, shadowDelete bool) (deletedTreasure tr
 
 	guardID := treasureObj.StartTreasureGuard(true, guard.BodyAuthID)
 	defer treasureObj.ReleaseTreasureGuard(guardID)
+	verifhook.Point("swamp.deleteHandler.guarded")
 
 	// Még változtatás előtt lemásoljuk a Treasure-t, hogy egy clone-t készíthessünk róla, hogy a törölt treasure-t minden
 	// adatával együtt vissza tudjuk adni.
